@@ -1,10 +1,13 @@
 //! C02 — level gating through the `log` facade. The global logger and `log::max_level()` are per process,
 //! so every case runs in a child process (`verif-harness child c02`, case line on stdin):
-//! one of the init paths, then `Handle::set_config` per further configuration; after each step the child
-//! prints `log::max_level()`, `log::logger().enabled(..)` for targets × five levels, and what
+//! one of the init paths, then a generated sequence of `Handle::set_config` calls and of further `init_*`
+//! attempts (which must return Err and change nothing); after each step the child prints
+//! `log::max_level()`, `log::logger().enabled(..)` for targets × five levels, and what
 //! `log::log!(target: t, lvl, "x")` delivered.
-//! case:  initPath  targets(,)  then 4 fields per configuration (see c01.rs)
+//! case:  initPath  targets(,)  first configuration (4 fields, see c01.rs)  then per step: kind + 4 fields,
+//!        kind = set | reinit-config | reinit-handler | reinit-raw | reinit-file
 //! obs:   steps joined by `/`:  max : enabled bits : deliveries(, per target × level; names joined by ;)
+//!        re-initialisation steps are prefixed `E!` (returned Err) or `K!` (returned Ok)
 //! Paths `config` / `handler` use capturing appenders. Paths `raw` / `file` can only name built-in appender
 //! kinds: every appender is a `file` appender in append mode on one shared scratch file whose pattern is the
 //! appender's (encoded) name, so the file's new lines after a macro call are the call sequence.
@@ -82,6 +85,39 @@ fn one_cfg(rng: &mut Rng) -> Cfg {
     }
 }
 
+/// a configuration for a failing re-initialisation: quieter / more verbose than `cur`, unrelated, or
+/// (raw path only — the runtime `Config` type cannot hold one) not even valid
+fn reinit_cfg(rng: &mut Rng, cur: &Cfg, allow_invalid: bool) -> Cfg {
+    let uniform = |c: &Cfg, v: u8| -> Cfg {
+        let mut d = c.clone();
+        d.root_level = v;
+        for l in d.loggers.iter_mut() {
+            l.level = v;
+        }
+        d
+    };
+    match rng.below(if allow_invalid { 8 } else { 6 }) {
+        0 => uniform(cur, 0),
+        1 => uniform(cur, 5),
+        2 => Cfg { appenders: vec!["x".into()], root_level: 0, root_refs: vec!["x".into()], loggers: vec![] },
+        3 => Cfg { appenders: vec!["x".into()], root_level: 5, root_refs: vec!["x".into()], loggers: vec![] },
+        4 => mutate_levels(rng, cur),
+        5 => one_cfg(rng),
+        6 => {
+            // dangling reference
+            let mut d = uniform(cur, if rng.chance(1, 2) { 0 } else { 5 });
+            d.root_refs.push("nowhere".into());
+            d
+        }
+        _ => {
+            // malformed logger name
+            let mut d = uniform(cur, if rng.chance(1, 2) { 0 } else { 5 });
+            d.loggers.push(LCfg { name: "a:b".into(), level: 5, additive: true, refs: vec![] });
+            d
+        }
+    }
+}
+
 pub fn gen(rng: &mut Rng, n: usize, thorough: bool, emit: &mut dyn FnMut(String)) {
     for i in 0..n {
         let path = match i % 10 {
@@ -90,16 +126,29 @@ pub fn gen(rng: &mut Rng, n: usize, thorough: bool, emit: &mut dyn FnMut(String)
             7 | 8 => "raw",
             _ => "file",
         };
-        let mut cfgs = vec![one_cfg(rng)];
-        if path == "config" || path == "handler" {
-            let k = rng.range(0, if thorough { 8 } else { 4 });
-            for _ in 0..k {
-                let prev = cfgs.last().unwrap().clone();
+        let has_handle = path == "config" || path == "handler";
+        let first = one_cfg(rng);
+        let mut cfgs = vec![first.clone()]; // for the targets
+        let mut cur = first.clone();
+        let mut steps: Vec<(String, Cfg)> = vec![];
+        let k = rng.range(0, if thorough { 8 } else { 4 });
+        // a third of the histories have no failed re-initialisation at all
+        let reinit_rate = if i % 3 == 0 { 0 } else { 2 };
+        for _ in 0..k {
+            if rng.below(5) < reinit_rate || !has_handle {
+                if reinit_rate == 0 {
+                    continue;
+                }
+                let kind = *rng.pick(&["reinit-config", "reinit-config", "reinit-handler", "reinit-raw", "reinit-raw", "reinit-file"]);
+                let c = reinit_cfg(rng, &cur, kind == "reinit-raw" || kind == "reinit-file");
+                cfgs.push(c.clone());
+                steps.push((kind.to_string(), c));
+            } else {
                 let next = match rng.below(5) {
                     0 => one_cfg(rng),
                     1 => {
                         // everything off, or everything maximal
-                        let mut d = prev.clone();
+                        let mut d = cur.clone();
                         let v = if rng.chance(1, 2) { 0 } else { 5 };
                         d.root_level = v;
                         for l in d.loggers.iter_mut() {
@@ -107,15 +156,18 @@ pub fn gen(rng: &mut Rng, n: usize, thorough: bool, emit: &mut dyn FnMut(String)
                         }
                         d
                     }
-                    _ => mutate_levels(rng, &prev),
+                    _ => mutate_levels(rng, &cur),
                 };
-                cfgs.push(next);
+                cur = next.clone();
+                cfgs.push(next.clone());
+                steps.push(("set".to_string(), next));
             }
         }
         // targets: configured names over all steps, extensions, partial matches, oddities
         let mut targets: Vec<String> = vec![];
         for c in &cfgs {
-            for t in c01::targets_for(rng, c, 4) {
+            let valid_names = Cfg { loggers: c.loggers.iter().filter(|l| l.name != "a:b").cloned().collect(), ..c.clone() };
+            for t in c01::targets_for(rng, &valid_names, 4) {
                 if !targets.contains(&t) {
                     targets.push(t);
                 }
@@ -129,8 +181,8 @@ pub fn gen(rng: &mut Rng, n: usize, thorough: bool, emit: &mut dyn FnMut(String)
             }
         }
         let ts: Vec<String> = targets.iter().map(|t| enc_str(t)).collect();
-        let cs: Vec<String> = cfgs.iter().map(|c| c.encode()).collect();
-        emit(format!("{}\t{}\t{}", path, enc_list(",", &ts), cs.join("\t")));
+        let ss: Vec<String> = steps.iter().map(|(k, c)| format!("\t{}\t{}", k, c.encode())).collect();
+        emit(format!("{}\t{}\t{}{}", path, enc_list(",", &ts), first.encode(), ss.concat()));
     }
 }
 
@@ -138,7 +190,7 @@ pub fn gen(rng: &mut Rng, n: usize, thorough: bool, emit: &mut dyn FnMut(String)
 // parent side: spawn the child, hand it the case, return its observation
 // ------------------------------------------------------------------------------------------------
 pub fn exec(fields: &[&str]) -> String {
-    if fields.len() < 6 || (fields.len() - 2) % 4 != 0 || !PATHS.contains(&fields[0]) {
+    if fields.len() < 6 || (fields.len() - 6) % 5 != 0 || !PATHS.contains(&fields[0]) {
         return "bad-case".to_owned();
     }
     let exe = match std::env::current_exe() {
@@ -239,58 +291,109 @@ fn observe(targets: &[String], cap: &mut Capture) -> String {
     format!("{}:{}:{}", max, bits, enc_list(",", &deliv))
 }
 
+struct Scratch {
+    dir: Option<std::path::PathBuf>,
+    seq: usize,
+}
+
+impl Scratch {
+    fn dir(&mut self) -> Result<std::path::PathBuf, String> {
+        if self.dir.is_none() {
+            let base = std::env::var("VERIF_SCRATCH").map(std::path::PathBuf::from).unwrap_or_else(|_| std::env::temp_dir());
+            let dir = base.join(format!("c02_{}", std::process::id()));
+            std::fs::create_dir_all(&dir).map_err(|e| e.to_string())?;
+            self.dir = Some(dir);
+        }
+        Ok(self.dir.clone().unwrap())
+    }
+    fn fresh(&mut self, stem: &str, ext: &str) -> Result<std::path::PathBuf, String> {
+        self.seq += 1;
+        Ok(self.dir()?.join(format!("{}{}.{}", stem, self.seq, ext)))
+    }
+}
+
+/// a further initialisation attempt through the given path; Ok(true) = the call returned Err
+fn reinit(kind: &str, c: &Cfg, sink: &Arc<Mutex<Vec<String>>>, scratch: &mut Scratch) -> Result<bool, String> {
+    match kind {
+        "reinit-config" => {
+            let cfg = c01::build_config(c, sink)?;
+            Ok(log4rs::init_config(cfg).is_err())
+        }
+        "reinit-handler" => {
+            let cfg = c01::build_config(c, sink)?;
+            Ok(log4rs::config::init_config_with_err_handler(cfg, Box::new(|_e: &anyhow::Error| {})).is_err())
+        }
+        "reinit-raw" => {
+            let out = scratch.fresh("reinit", "log")?;
+            let doc = raw_json(c, &out);
+            let raw: log4rs::config::RawConfig = serde_json::from_str(&doc).map_err(|e| e.to_string())?;
+            Ok(log4rs::init_raw_config(raw).is_err())
+        }
+        "reinit-file" => {
+            let out = scratch.fresh("reinit", "log")?;
+            let f = scratch.fresh("cfg", "json")?;
+            std::fs::write(&f, raw_json(c, &out)).map_err(|e| e.to_string())?;
+            Ok(log4rs::init_file(&f, Default::default()).is_err())
+        }
+        _ => Err(format!("step kind {}", kind)),
+    }
+}
+
 fn child_run(fields: &[&str]) -> Result<String, String> {
     let path = fields[0];
     let targets: Vec<String> = dec_list(',', fields[1]).iter().map(|t| dec_str(t)).collect::<Option<_>>().ok_or("targets")?;
-    let mut cfgs = vec![];
-    for ch in fields[2..].chunks(4) {
-        cfgs.push(Cfg::decode(ch).ok_or("config")?);
+    let first = Cfg::decode(&fields[2..6]).ok_or("config")?;
+    let mut steps: Vec<(String, Cfg)> = vec![];
+    for ch in fields[6..].chunks(5) {
+        steps.push((ch[0].to_string(), Cfg::decode(&ch[1..]).ok_or("config")?));
     }
-    let mut steps: Vec<String> = vec![];
+    let mut out: Vec<String> = vec![];
     let sink = Arc::new(Mutex::new(Vec::<String>::new()));
-    let mut scratch: Option<std::path::PathBuf> = None;
+    let mut scratch = Scratch { dir: None, seq: 0 };
     let result = (|| -> Result<(), String> {
-        match path {
+        let mut handle: Option<log4rs::Handle> = None;
+        let mut cap = match path {
             "config" | "handler" => {
-                let mut cap = Capture::Memory(sink.clone());
-                let first = c01::build_config(&cfgs[0], &sink)?;
-                let handle = if path == "config" {
-                    log4rs::init_config(first).map_err(|e| e.to_string())?
+                let cfg = c01::build_config(&first, &sink)?;
+                handle = Some(if path == "config" {
+                    log4rs::init_config(cfg).map_err(|e| e.to_string())?
                 } else {
-                    log4rs::config::init_config_with_err_handler(first, Box::new(|_e: &anyhow::Error| {}))
+                    log4rs::config::init_config_with_err_handler(cfg, Box::new(|_e: &anyhow::Error| {}))
                         .map_err(|e| e.to_string())?
-                };
-                steps.push(observe(&targets, &mut cap));
-                for c in &cfgs[1..] {
-                    handle.set_config(c01::build_config(c, &sink)?);
-                    steps.push(observe(&targets, &mut cap));
-                }
+                });
+                Capture::Memory(sink.clone())
             }
             _ => {
-                let base = std::env::var("VERIF_SCRATCH").map(std::path::PathBuf::from).unwrap_or_else(|_| std::env::temp_dir());
-                let dir = base.join(format!("c02_{}", std::process::id()));
-                std::fs::create_dir_all(&dir).map_err(|e| e.to_string())?;
-                scratch = Some(dir.clone());
-                let out = dir.join("out.log");
-                let doc = raw_json(&cfgs[0], &out);
+                let log = scratch.dir()?.join("out.log");
+                let doc = raw_json(&first, &log);
                 if path == "raw" {
                     let raw: log4rs::config::RawConfig = serde_json::from_str(&doc).map_err(|e| e.to_string())?;
                     log4rs::init_raw_config(raw).map_err(|e| e.to_string())?;
                 } else {
-                    let f = dir.join("cfg.json");
+                    let f = scratch.dir()?.join("cfg.json");
                     std::fs::write(&f, doc).map_err(|e| e.to_string())?;
                     log4rs::init_file(&f, Default::default()).map_err(|e| e.to_string())?;
                 }
-                let mut cap = Capture::File { path: out, offset: 0 };
-                steps.push(observe(&targets, &mut cap));
+                Capture::File { path: log, offset: 0 }
+            }
+        };
+        out.push(observe(&targets, &mut cap));
+        for (kind, c) in &steps {
+            if kind == "set" {
+                let h = handle.as_ref().ok_or("set_config without a handle")?;
+                h.set_config(c01::build_config(c, &sink)?);
+                out.push(observe(&targets, &mut cap));
+            } else {
+                let failed = reinit(kind, c, &sink, &mut scratch)?;
+                out.push(format!("{}{}", if failed { "E!" } else { "K!" }, observe(&targets, &mut cap)));
             }
         }
         Ok(())
     })();
-    if let Some(d) = scratch {
+    if let Some(d) = scratch.dir.take() {
         let _ = std::fs::remove_dir_all(d);
     }
-    result.map(|()| steps.join("/"))
+    result.map(|()| out.join("/"))
 }
 
 /// `verif-harness child c02`: the case line (without the property id) on stdin, the observation on stdout
